@@ -153,19 +153,29 @@ Qed.
 Lemma tp_shape m : sh false (tp_step m) = true.
 Proof. unfold tp_step. destruct (fresh_pass m); [destruct (0 <=? m_pres m)|]; reflexivity. Qed.
 
-Lemma flush_shape c t p : forall h hasbp leader lv ls, sh false (snd (flush c t p h hasbp leader lv ls)) = true.
+Lemma flush_sends_shape c t p : forall buf sq ep, sh false (fst (flush_sends c t p sq ep buf)) = true.
+Proof.
+  induction buf as [|m r IH]; intros; [reflexivity|]. cbn [flush_sends].
+  destruct (c_idem c && fresh_pass m && is_data m && negb (m_hasseq m)).
+  - specialize (IH (sq + 1) ep). destruct (flush_sends c t p (sq + 1) ep r) as [e sq']. cbn [fst] in *. rewrite !sh_cons, IH. reflexivity.
+  - specialize (IH sq ep). destruct (flush_sends c t p sq ep r) as [e sq']. cbn [fst] in *. rewrite sh_cons, IH. reflexivity.
+Qed.
+
+Lemma flush_shape c t p : forall h hasbp leader lv stamp ls, sh false (snd (flush c t p h hasbp leader lv stamp ls)) = true.
 Proof.
   induction h as [|h' IH]; intros; [reflexivity|]. cbn [flush].
+  pose proof (flush_sends_shape c t p (l_buf (get_level h' lv)) (fst stamp) (snd stamp)) as FS.
+  destruct (flush_sends c t p (fst stamp) (snd stamp) (l_buf (get_level h' lv))) as [fe sq']. cbn [fst] in FS.
   destruct hasbp.
-  - destruct (l_chaser (get_level h' lv) || (h' =? 0)%nat); cbn [snd]; [apply sh_sends_cur|].
-    specialize (IH true leader (set_buf h' [] lv) ls). destruct (flush c t p h' true leader _ ls) as [res e2].
-    cbn [snd] in *. rewrite sh_app, sh_sends_cur, IH. reflexivity.
+  - destruct (l_chaser (get_level h' lv) || (h' =? 0)%nat); cbn [snd]; [exact FS|].
+    specialize (IH true leader (set_buf h' [] lv) (sq', snd stamp) ls). destruct (flush c t p h' true leader _ _ ls) as [res e2].
+    cbn [snd] in *. rewrite sh_app, FS, IH. reflexivity.
   - destruct (next_lres ls) as [[b|e] r].
-    + destruct (l_chaser (get_level h' lv) || (h' =? 0)%nat); cbn [snd]; [rewrite sh_app, sh_sends_cur; reflexivity|].
-      specialize (IH true b (set_buf h' [] lv) r). destruct (flush c t p h' true b _ r) as [res e2].
-      cbn [snd] in *. rewrite !sh_app, sh_sends_cur, IH. reflexivity.
+    + destruct (l_chaser (get_level h' lv) || (h' =? 0)%nat); cbn [snd]; [rewrite sh_app, FS; reflexivity|].
+      specialize (IH true b (set_buf h' [] lv) (sq', snd stamp) r). destruct (flush c t p h' true b _ _ r) as [res e2].
+      cbn [snd] in *. rewrite !sh_app, FS, IH. reflexivity.
     + destruct (l_chaser (get_level h' lv) || (h' =? 0)%nat); cbn [snd]; [apply sh_return_errors|].
-      specialize (IH false leader (set_buf h' [] lv) r). destruct (flush c t p h' false leader _ r) as [res e2].
+      specialize (IH false leader (set_buf h' [] lv) (fst stamp, snd stamp) r). destruct (flush c t p h' false leader _ _ r) as [res e2].
       cbn [snd] in *. rewrite sh_app, sh_return_errors, IH. reflexivity.
 Qed.
 
@@ -195,8 +205,8 @@ Proof.
       destruct (is_fin m) eqn:Ef; cbn [snd]; [|exact He1].
       rewrite sh_app, He1, sh_cons. cbn [shape_ok]. rewrite (fin_not_data _ Ef). reflexivity.
     + destruct (is_fin m) eqn:Ef; [|apply pp_forward_shape, He1].
-      pose proof (flush_shape c t p (p_hwm st1) (p_has_bp st1) (p_leader st1) (set_chaser (p_hwm st1) false (p_levels st1)) ls) as Hfl.
-      destruct (flush c t p (p_hwm st1) (p_has_bp st1) (p_leader st1) _ ls) as [[[[h' hasbp] leader] lv'] effs].
+      pose proof (flush_shape c t p (p_hwm st1) (p_has_bp st1) (p_leader st1) (set_chaser (p_hwm st1) false (p_levels st1)) stamp ls) as Hfl.
+      destruct (flush c t p (p_hwm st1) (p_has_bp st1) (p_leader st1) _ stamp ls) as [[[[h' hasbp] leader] lv'] effs].
       cbn [snd] in *. rewrite !sh_app, He1, Hfl, sh_cons. cbn [shape_ok]. rewrite (fin_not_data _ Ef). reflexivity.
 Qed.
 
